@@ -308,4 +308,7 @@ class TrioEventLoop(EventLoop):
             # closed and calling wait_readable with a closed fd does not work.
             while not scope.cancel_called:
                 await self._wait_readable(fd)
+                # the watch may have been removed while this task was already woken up
+                if scope.cancel_called:
+                    break
                 callback()
